@@ -21,7 +21,7 @@ ASSUMPTIONS = [
     "a symbolic opcode byte is not decodable: halmos must raise NotConcreteError there, and jump-destination scanning legitimately stops",
     "symbolic bytes evaluated under one valuation with pairwise distinct byte values that differ from every alphabet byte",
     "random byte strings up to 4 KiB (sampling) are not claimed",
-    "code slices past the end are also observed through the instructions: (EXT)CODECOPY of the running code with offsets around its end, MSIZE and CODESIZE afterwards (MSIZE only after writes: reads that expand memory are the open finding D4 of C01)",
+    "code slices past the end are also observed through the instructions: (EXT)CODECOPY of the running code with offsets around its end, MSIZE and CODESIZE afterwards (reads expand memory too: D4 of C01, fixed in fddab05)",
 ]
 
 STOP, ADD, JUMPDEST, PUSH0, PUSH1, PUSH2, PUSH32, INVALID = 0x00, 0x01, 0x5B, 0x5F, 0x60, 0x61, 0x7F, 0xFE
